@@ -6,15 +6,15 @@ V = os.path.dirname(os.path.dirname(os.path.abspath(__file__)))
 CLAIMS = {
  'C01': ('missing variable => error on every state lookup; used-id set fed by every id field; every coefficient field and oneof arm consumed; unset oneof => 0; no term skipped; lookups fail only for a missing variable; every stored term contributes exactly once (no skip, no early exit, no state-dependent used-id set); validate-then-index and hand-written lockstep iteration decided on dataflow',
          'the numerical value (sign, operator, rounding) is not decided'),
- 'C02': ('operator impl table floor and Output degree capacity for every Add/Sub/Mul/Neg impl; delegating impls delegate to the same operation with both operands; Function-level dispatch uses both payloads; term iterators read every coefficient and id field; merge constructors add equal keys into the retained element; scalar kernels keep every term (no keyed overwrite, no dedup); drop thresholds are constants <= 1e-9; Function-level dispatch decided per ordered kind pair; Sum/Product start from the identity',
+ 'C02': ('operator impl table floor and Output degree capacity for every Add/Sub/Mul/Neg impl; delegating impls delegate to the same operation with both operands; Function-level dispatch uses both payloads; term iterators read every coefficient and id field; merge constructors add equal keys into the retained element; scalar kernels keep every term (no keyed overwrite, no dedup); drop thresholds are constants <= 1e-9; Function-level dispatch decided per ordered kind pair; Sum/Product start from the identity; scalar-addition kernels and the four term iterators lose no stored term (nothing taken out of the operand\'s vectors, no keyed container filled without accumulation)',
          'coefficient-level exactness and epsilon dropping are not decided'),
- 'C03': ('per-branch effect tables of the partial_evaluate kernels (fixed => folded, removed and reported; free => kept); instance-level coverage of objective / constraints / removed constraints / dependencies / substituted_value; returned set is the union; every term / entry is probed (no skip that leaves a fixed id in place); the returned set is the union of what the kernels reported and nothing else; substituted_value is only ever added to; SampleSet::get reads the recorded value first (C06.get)',
+ 'C03': ('per-branch effect tables of the partial_evaluate kernels (fixed => folded, removed and reported; free => kept); instance-level coverage of objective / constraints / removed constraints / dependencies / substituted_value; returned set is the union; every term / entry is probed (no skip that leaves a fixed id in place); the returned set is the union of what the kernels reported and nothing else; substituted_value is only ever added to; SampleSet::get reads the recorded value first (C06.get); partial_evaluate removes no element of constraints / removed_constraints / decision_variables / decision_variable_dependency; re-decides C05.bound/check_bound (no refusal other than a submitted value outside its bound)',
          'commutation with evaluation as a numerical identity is not decided'),
- 'C04': ('Instance::substitute rewrites all four function holders and records the replacement map; Function::substitute branch table; eval_dependencies has the empty => Ok and no-progress => Err exits and stores each value under its own id; the factor kept for an unreplaced id is x_id itself (read from the constructor body); the bound check looks at the submitted state; product / sum kernels of C02 and the dependency rows of C03.instance re-decided',
+ 'C04': ('Instance::substitute rewrites all four function holders and records the replacement map; Function::substitute branch table; eval_dependencies has the empty => Ok and no-progress => Err exits and stores each value under its own id; the factor kept for an unreplaced id is x_id itself (read from the constructor body); the bound check looks at the submitted state; product / sum kernels of C02 and the dependency rows of C03.instance re-decided; values recovered by eval_dependencies are not rewritten afterwards in evaluate / evaluate_samples',
          'composition as a numerical identity is not decided'),
- 'C05': ('bound check (1e-7) dominates success; both constraint lists evaluated and pushed once per iteration; flag dataflow (feasible_relaxed from active constraints only, feasible from both); tolerance constants and comparison shape in all feasibility rules; carry-over of metadata / removal reason; state completion calls; bound table built from every decision variable; removal reason carried verbatim; nearest-to-zero table; state arguments are the submitted state; kernels of C01, eval_dependencies of C04 and C03.instance/record re-decided',
+ 'C05': ('bound check (1e-7) dominates success; both constraint lists evaluated and pushed once per iteration; flag dataflow (feasible_relaxed from active constraints only, feasible from both); tolerance constants and comparison shape in all feasibility rules; carry-over of metadata / removal reason; state completion calls; bound table built from every decision variable; removal reason carried verbatim; nearest-to-zero table; state arguments are the submitted state; kernels of C01, eval_dependencies of C04 and C03.instance/record re-decided; get_bounds builds each bound from the declared lower/upper or the binary default only; check_bound looks every state entry up and has no error of its own other than a submitted value outside its bound',
          'objective and constraint values are not decided'),
- 'C06': ('sibling agreement evaluate <-> evaluate_samples; carry-over in SampledConstraint::get / SampleSet::get incl. which feasibility accessor feeds which flag; tables keyed from samples.ids(); compressed-value helpers keep the id list of the entry they read; bound check on the submitted state; used ids independent of the state; per-sample dependency recovery; objective table keyed by the submitted ids even when the objective is absent; C01 kernels, C04.deps/use, C05.state and the C03 dependency rows re-decided',
+ 'C06': ('sibling agreement evaluate <-> evaluate_samples; carry-over in SampledConstraint::get / SampleSet::get incl. which feasibility accessor feeds which flag; tables keyed from samples.ids(); compressed-value helpers keep the id list of the entry they read; bound check on the submitted state; used ids independent of the state; per-sample dependency recovery; objective table keyed by the submitted ids even when the objective is absent; C01 kernels, C04.deps/use, C05.state and the C03 dependency rows re-decided; the objective is evaluated on the function\'s own samples parameter',
          'equality of numbers is not decided'),
  'C07': ('field number, wire codec, label, oneof membership and enum numbers agree between the .proto schema, the prost-derived encode_raw/merge_field MIR of the compiled Rust and the descriptors embedded in *_pb2.py; pinned schema tags never removed or retyped; stored 2024 artifact decodes under the current schema; proto3 implicit defaults (the value the writer omits and the value an absent field is read as are the zero value, enum default numbered 0); legacy fallback accessor (C15.legacy); layer media types, plain decoding and unchanged bytes (C20.types / C20.kinds)',
          'round-trip equality rests on prost / protobuf-python (trusted)'),
@@ -22,23 +22,23 @@ CLAIMS = {
          'that the rule set is exactly the accepted language is not decided'),
  'C09': ('every input field consumed/carried; every input constraint (active and already removed) flows into removed_constraints; no active constraints; objective slice contains f, one parameter and g*g; fresh ids derive from max defined id + 1; tags reference the constraint / parameter id; no Err exit at all (C09.refusals); every decision variable carried; the squared factor is the own function of the constraint; weight tag derives from the constraint id only; C02 product / sum kernels re-decided',
          'the evaluation identity at arbitrary weights is not decided'),
- 'C10': ('required-subset-of-given guard => error; partial evaluation applied to the objective and every active constraint with the given map; all fields carried, parameters: Some(given); From<Instance> carries all fields; every list field moved or rebuilt element by element without a skip (C10.carry field-complete); missing-parameter guard accepts exactly supersets',
+ 'C10': ('required-subset-of-given guard => error; partial evaluation applied to the objective and every active constraint with the given map; all fields carried, parameters: Some(given); From<Instance> carries all fields; every list field moved or rebuilt element by element without a skip (C10.carry field-complete); missing-parameter guard accepts exactly supersets; with_parameters has no error of its own other than the missing-parameter guard',
          'the numerical identity is not decided'),
  'C11': ('the three (PUBO) / four (QUBO) refusal guards dominate success with the right polarity; keys built only through the canonicalising constructors; zero filter present; every objective term reaches the map; no Err exit other than the stated refusals under their negated conditions; the compared id set derives from the objective only; diagonal / repeated keys accumulate; offset followed through every carry',
          'the exported numbers are not decided'),
- 'C12': ('five error guards (unknown, non-integer, no bound, non-finite, empty) dominate the loop; errors and the single-integer return precede any push; pushed variables are binary / [0,1] / fresh id / tagged; loop bound from an f64->usize cast is guarded by a finiteness test; guards reject NaN; subscripts start with the encoded id; fresh ids after every defined id; coefficients / ids paired per bit; lookup of the variable is by id over the whole list',
+ 'C12': ('five error guards (unknown, non-integer, no bound, non-finite, empty) dominate the loop; errors and the single-integer return precede any push; pushed variables are binary / [0,1] / fresh id / tagged; loop bound from an f64->usize cast is guarded by a finiteness test; guards reject NaN; subscripts start with the encoded id; fresh ids after every defined id; coefficients / ids paired per bit; lookup of the variable is by id over the whole list; the id search compares every element of decision_variables',
          'that the coefficients cover exactly ceil(l)..floor(u) is not decided'),
- 'C13': ('guard set of both slack functions incl. "is an inequality" (sibling agreement); fail-before-mutate; always-satisfied => relax and no new variable; infeasible => typed error; slack variable shape; coefficient derives from 1/a resp. -lower/upper-bound and the same value is returned; guards precede every modification of the instance (relax and push); get_bounds table (C05.bound); Add kernels (C02.kernel); every stored term reaches the interval of evaluate_bound; rounding tolerance of as_integer_bound is a constant',
+ 'C13': ('guard set of both slack functions incl. "is an inequality" (sibling agreement); fail-before-mutate; always-satisfied => relax and no new variable; infeasible => typed error; slack variable shape; coefficient derives from 1/a resp. -lower/upper-bound and the same value is returned; guards precede every modification of the instance (relax and push); get_bounds table (C05.bound); Add kernels (C02.kernel); every stored term reaches the interval of evaluate_bound; rounding tolerance of as_integer_bound is a constant; content_factor is taken of the constraint\'s own function',
          'feasible-set preservation on lattice points is not decided'),
- 'C14': ('relax/restore move exactly one element between the two lists on every success path, nothing else of the instance is written, lookup failure precedes any mutation, reason stored; lookup index is an index of the list it removes from; failing paths leave both lists untouched; feasibility flags of evaluate and evaluate_samples (C05.flags/lists/rule, C06.samples) re-decided',
+ 'C14': ('relax/restore move exactly one element between the two lists on every success path, nothing else of the instance is written, lookup failure precedes any mutation, reason stored; lookup index is an index of the list it removes from; failing paths leave both lists untouched; feasibility flags of evaluate and evaluate_samples (C05.flags/lists/rule, C06.samples) re-decided; relax/restore refuse only an id that is not in the list; re-decides C05.bound/check_bound',
          'consequence for feasibility flags follows from the C05 rules'),
  'C15': ('as_minimization_problem: early return on Minimize, else sense:=Minimize and objective:=-objective on the same path, nothing else written; best: the two sense branches compare with opposite argument order; accessor pairing and legacy-field fallback table; empty => error; selection replaces the incumbent iff strictly better under the sense (min_by / reduce); SampleSet::get flags through the accessors (C06.get/flags); scalar kernels negation goes through (C02) re-decided',
          'ties and NaN ordering are not decided'),
  'C17': ('keyword tables (rows, bounds, markers, sections, sense) contain the spec with error fallback; per-keyword effect table on the parsed tables; converter reads every parsed table incl. the objective row name; sign discipline per row type; kind/sense mappings; bound defaults; every (row, value) pair of a line processed; undeclared rows never skipped; generated RANGES row name checked against existing rows; loaders take no path-only branch; blank / comment lines skipped by trimmed content; objective constant sign',
          'that arbitrary files produce the right numbers is not decided'),
- 'C18': ('writer dispatch literals equal the schema enum numbers; every keyword the writer can emit is accepted by the reader; non-linear => typed error naming the offender; a bound record is written on every path for every used variable; shared name prefixes; no partial write (io::Write::write only inside a completing loop); emitted names are prefix + id only; every section writer called in order (also through a table of functions); all of C17 re-decided for the read-back',
+ 'C18': ('writer dispatch literals equal the schema enum numbers; every keyword the writer can emit is accepted by the reader; non-linear => typed error naming the offender; a bound record is written on every path for every used variable; shared name prefixes; no partial write (io::Write::write only inside a completing loop); emitted names are prefix + id only; every section writer called in order (also through a table of functions); all of C17 re-decided for the read-back; only an exact zero is left out of RHS / column entries (sampled down to 1e-300); only integer columns may become binary on reading back',
          'numeric text round-trip of coefficients is not decided'),
- 'C19': ('type-code / sense / var-type tables with error fallback; section dispatch per code; converter reads every parsed table; diagonal/off-diagonal distinction exists; sign discipline for the two sides; infinity threshold routed to the right list with the right sign; parse errors keep their line number; per-section index ranges and lengths; counts parsed as unsigned integers; tokens split from the whole line on whitespace only, names stored verbatim; listed coefficients reach the function unfiltered; both sides of every row emitted',
+ 'C19': ('type-code / sense / var-type tables with error fallback; section dispatch per code; converter reads every parsed table; diagonal/off-diagonal distinction exists; sign discipline for the two sides; infinity threshold routed to the right list with the right sign; parse errors keep their line number; per-section index ranges and lengths; counts parsed as unsigned integers; tokens split from the whole line on whitespace only, names stored verbatim; listed coefficients reach the function unfiltered; both sides of every row emitted; counts are parsed as unsigned integers through helpers and Ok/Some wrappers; the <= 0 discriminant is compared by value',
          'numbers are not decided'),
  'C20': ('per layer kind: builder and reader use the same media-type function and message type, mismatch => error; media types distinct and equal to ARTIFACT.md; setter/getter of every annotation use the same key with the kind prefix; manifest type guard; unknown digest => error; get_manifest / get_layer / get_<kind> have no Err exit beyond the expected ones; annotations handed to add_layer unchanged; every matching layer kept by the list readers; a decode site is Message::decode or a fresh Default merged once',
          'byte-for-byte storage rests on ocipkg / prost (trusted)'),
